@@ -4,7 +4,7 @@ ENGINES = [
     {
         "name": "vloop",
         "path": "vf/engine/vloop.py vf/engine/explore.py vf/engine/netsim.py",
-        "serves_properties": ["C04", "C05", "C06", "C07"],
+        "serves_properties": ["C04", "C05", "C06", "C07", "C19"],
         "kind_free_text": "stateless model checker for asyncio code: virtual-time BaseEventLoop stepped by hand, "
         "deviation-bounded exhaustive DFS over environment choices (segment delivery, timers, EOF/RST, cancel), "
         "replay of choice prefixes on fresh objects",
@@ -56,6 +56,20 @@ CHECKS = [
         "note": "Trusted: CPython asyncio streams/primitives, FIFO callback order as reproduced by vloop, the independent frame encoder and "
         "the ideal demultiplexer in vf/checks/demux.py. Not covered: scripts longer than the bound, more deviations than the bound, "
         "two client tasks using one transport concurrently, caller timeouts on write.",
+    },    {
+        "id": "C19",
+        "engine": "vloop",
+        "level": "model_checking",
+        "technique": "stateless deviation-bounded exploration of the real line transports and the vECU TCP server loop on in-memory streams: exhaustive message sequences x segmentations x timer placements, compared with an independent line codec",
+        "text": "All message sequences of length <= 2 over 16 messages (lengths 1/2/255/4095 x contents 00/FF/0A0D/ascending) and length 3 over a "
+        "6-message (thorough 10) alphabet, plus 50-message bursts, are pushed through TCPLinesTransport / UnixLinesTransport read(), write() and "
+        "TCPUDSServerTransport.handle_client (echo server) under every segmentation in {coalesced, per message, byte-by-byte (short streams), every "
+        "single split near every message boundary (all offsets on short streams), pairs of splits on short streams}; the explorer fires the 1 s read "
+        "timeout at every point of the partially delivered stream (<= 1 deviation quick, 2 thorough). Checked: reads return exactly the sent "
+        "sequence, one message per read, a timed-out read consumes nothing, end of stream is an empty read / loop exit, wire bytes written are "
+        "exactly hex+LF per message.",
+        "note": "Trusted: CPython asyncio streams; independent hex-line codec. Not covered: messages longer than 4095 bytes (StreamReader limit 64 KiB "
+        "is a documented asyncio bound), more than 3 messages except the bursts.",
     },
 ]
 
